@@ -256,7 +256,7 @@ def model_identifiers(m):
 
 # ------------------------------------------------------------------ Coq
 
-COQ_PRELUDE = """From FP Require Import Show Go Py Cpp Rust Java.
+COQ_PRELUDE = """From FP Require Import Show Oracle Go Py Cpp Rust Java.
 From Coq Require Import String List NArith.
 Import ListNotations.
 Open Scope string_scope.
